@@ -14,6 +14,8 @@ import (
 	"sync/atomic"
 	"time"
 
+	"github.com/go-logr/logr"
+	"go.opentelemetry.io/otel"
 	"go.opentelemetry.io/otel/attribute"
 	"go.opentelemetry.io/otel/codes"
 	sdktrace "go.opentelemetry.io/otel/sdk/trace"
@@ -576,6 +578,73 @@ func firstLine(s string) string {
 	return s
 }
 
+// tracingSink is logging code that is itself instrumented with tracing: when the SDK logs from the goroutine
+// of the current case it asks the same provider for a tracer (and starts a span with it). Library code that
+// logs while holding one of its own locks deadlocks here; the SDK documents that it must not.
+type tracingSink struct {
+	tp      atomic.Pointer[sdktrace.TracerProvider]
+	gid     atomic.Pointer[string]
+	depth   atomic.Int32
+	entered atomic.Int64
+}
+
+func (s *tracingSink) Init(logr.RuntimeInfo) {}
+func (s *tracingSink) Enabled(int) bool      { return true }
+func (s *tracingSink) Info(_ int, msg string, _ ...any) {
+	tp, gid := s.tp.Load(), s.gid.Load()
+	if tp == nil || gid == nil || *gid != goroutineHeader() || s.depth.Load() > 0 {
+		return
+	}
+	s.depth.Add(1)
+	defer s.depth.Add(-1)
+	s.entered.Add(1)
+	_, sp := tp.Tracer("logging-library").Start(context.Background(), "log:"+msg)
+	sp.End()
+}
+func (s *tracingSink) Error(error, string, ...any)    {}
+func (s *tracingSink) WithValues(...any) logr.LogSink { return s }
+func (s *tracingSink) WithName(string) logr.LogSink   { return s }
+
+var theSink = &tracingSink{}
+
+func runInstrumentedLogger(k *vf.Case) {
+	r := k.R
+	finished, stuck, desc := vf.Watch(15*time.Second, 2*time.Second, func() {
+		p := &recProc{name: "p", got: map[trace.SpanID][]delivered{}}
+		tp := sdktrace.NewTracerProvider(sdktrace.WithSpanProcessor(p))
+		gid := goroutineHeader()
+		theSink.tp.Store(tp)
+		theSink.gid.Store(&gid)
+		defer theSink.tp.Store(nil)
+		for i := 0; i < 2+r.Intn(4); i++ {
+			opts := []trace.TracerOption{}
+			if r.Bool() {
+				opts = append(opts, trace.WithInstrumentationVersion(fmt.Sprintf("v%d", r.Intn(3))))
+			}
+			tr := tp.Tracer(fmt.Sprintf("scope-%d", r.Intn(4)), opts...)
+			_, sp := tr.Start(context.Background(), "s")
+			sp.SetAttributes(attribute.Int("i", i))
+			sp.End()
+			if r.Chance(1, 3) {
+				tp.RegisterSpanProcessor(&recProc{name: "late", got: map[trace.SpanID][]delivered{}})
+			}
+		}
+		_ = tp.ForceFlush(context.Background())
+		_ = tp.Shutdown(context.Background())
+		tp.Tracer("after-shutdown")
+	})
+	if !finished {
+		if stuck {
+			k.Violate("deadlock", "logging code that uses the tracing API", desc, nil)
+		} else {
+			k.C.Inconclusive("instrumented-logger case did not finish")
+		}
+		return
+	}
+	k.C.Count("instrumented_logger_cases", 1)
+	k.C.Sig("instrumented-logger")
+}
+
 func main() {
 	vf.Main("C10", "exploration", func(c *vf.Ctx) {
 		c.Rule = "seeded cases of 2-16 goroutines released by a barrier on 1-2 shared spans, each running a random list of End(+-timestamp)/SetAttributes(tagged group of 3)/AddEvent(3 tagged attributes)/AddLink/SetStatus/SetName/RecordError/IsRecording/child Start+End/Tracer lookup/Register+Unregister of a third processor; every case list is run without and with runtime/trace started; two recording processors; ReadLive (all ReadOnlySpan accessors on the live span) and RecordError with stack traces in the concurrent menu; -race; GOMAXPROCS{2,4,16}. distinct = distinct (mode, goroutines, procs, end-heavy, overlapping Ends observed, shared spans) signatures"
@@ -588,6 +657,11 @@ func main() {
 			c.Cases("traced", n, 1, func(k *vf.Case) { runCase(k, true) })
 			rtrace.Stop()
 		}
+		// last family: the global logger becomes logging code that itself uses the tracing API
+		otel.SetLogger(logr.New(theSink))
+		c.Cases("instrumented-logger", c.N(400, 4000), 1, runInstrumentedLogger)
+		c.Extra("sdk_log_calls_that_re_entered_the_provider", int(theSink.entered.Load()))
+		c.Floor("instrumented_logger_cases", 200)
 		c.Floor("stack_traces_checked", 250)
 		c.Floor("untraced_cases_with_overlapping_ends", 1000)
 		c.Floor("traced_cases_with_overlapping_ends", 1000)
